@@ -7,6 +7,7 @@ package e2ex
 
 import (
 	"context"
+	"sync"
 	"errors"
 	"fmt"
 	"net"
@@ -106,6 +107,23 @@ func runC14Client(t *rapid.T) {
 	}
 	defer b.Close()
 
+	// B watches the changes: the end of A's sessions must be announced like any other deletion (C17)
+	ns, err := b.GetNotifications()
+	if err != nil {
+		t.Skip("inconclusive: GetNotifications: " + err.Error())
+	}
+	var nmu sync.Mutex
+	deletedSeen := map[string]int{}
+	go func() {
+		for n := range ns.Ch() {
+			if n.Type == oxia.KeyDeleted {
+				nmu.Lock()
+				deletedSeen[n.Key]++
+				nmu.Unlock()
+			}
+		}
+	}()
+	defer ns.Close()
 	// content: plain records by B, ephemeral ones by A (spread over the shards by their keys)
 	plain := map[string]bool{}
 	eph := map[string]bool{}
@@ -242,6 +260,31 @@ func runC14Client(t *rapid.T) {
 	if ps := drainPanics(); len(ps) > 0 {
 		t.Skip("inconclusive: a server goroutine panicked: " + ps[0])
 	}
+	// every ephemeral record that disappeared with the session was announced as deleted, exactly once; no plain one
+	ndl := time.Now().Add(5 * time.Second)
+	for time.Now().Before(ndl) {
+		nmu.Lock()
+		n := len(deletedSeen)
+		nmu.Unlock()
+		if n >= len(eph) {
+			break
+		}
+		time.Sleep(10 * time.Millisecond)
+	}
+	nmu.Lock()
+	for k := range eph {
+		if deletedSeen[k] != 1 {
+			nmu.Unlock()
+			t.Fatalf("C14: the deletion of ephemeral record %q at the end of its session was announced %d times to a subscriber (C17); history=%v", k, deletedSeen[k], hist)
+		}
+	}
+	for k := range plain {
+		if deletedSeen[k] != 0 {
+			nmu.Unlock()
+			t.Fatalf("C14: a deletion of the plain record %q was announced although it still exists; history=%v", k, hist)
+		}
+	}
+	nmu.Unlock()
 	var labels []string
 	if restart {
 		labels = append(labels, "server_restart_while_session_open")
